@@ -140,84 +140,84 @@ Notation meval := Verif.Model.Eval.eval.
    node whose children are opaque callables returning the values Model/Eval.v's [eval] assigns to the child nodes
    (hypothesis [child]: call_ref k [ctx] = meval r st a, not an exception) yields the value of the corresponding clause
    of [eval], for every operand list and all operand values.  All theorems above are stated over [eval]. *)
-Theorem C01_source_unary : forall call_ref ctx r st op k kop a,
+Theorem C01_source_unary : forall call_ref prim ctx r st op k kop a,
   op = UNot \/ op = UIsNull \/ op = UIsNotNull ->
   child call_ref ctx r st k a -> (forall x, call_ref kop [PV x] = PV (un op x)) ->
   let flds := [("operand", PRef k); ("operator", PRef kop)]%string in
-  call_method call_ref node_unary flds [ctx] = expect flds (meval r st (EUnary op a)).
+  call_method call_ref prim node_unary flds [ctx] = expect flds (meval r st (EUnary op a)).
 Proof. exact node_unary_src. Qed.
 Print Assumptions C01_source_unary.
 
-Theorem C01_source_unary_strict : forall call_ref ctx r st k kop a,
+Theorem C01_source_unary_strict : forall call_ref prim ctx r st k kop a,
   child call_ref ctx r st k a -> (forall x, is_null x = false -> call_ref kop [PV x] = PV (un UNeg x)) ->
   let flds := [("operand", PRef k); ("operator", PRef kop)]%string in
-  call_method call_ref node_unary_safe flds [ctx] = expect flds (meval r st (EUnary UNeg a)).
+  call_method call_ref prim node_unary_safe flds [ctx] = expect flds (meval r st (EUnary UNeg a)).
 Proof. exact node_unary_safe_src. Qed.
 Print Assumptions C01_source_unary_strict.
 
-Theorem C01_source_binary : forall call_ref ctx r st op ka kb kop a b,
+Theorem C01_source_binary : forall call_ref prim ctx r st op ka kb kop a b,
   child call_ref ctx r st ka a -> child call_ref ctx r st kb b ->
   (forall x y, is_null x = false -> is_null y = false -> call_ref kop [PV x; PV y] = PV (bin op x y)) ->
   let flds := [("left", PRef ka); ("right", PRef kb); ("operator", PRef kop)]%string in
-  call_method call_ref node_binary flds [ctx] = expect flds (meval r st (EBinary op a b)).
+  call_method call_ref prim node_binary flds [ctx] = expect flds (meval r st (EBinary op a b)).
 Proof. exact node_binary_src. Qed.
 Print Assumptions C01_source_binary.
 
-Theorem C01_source_between : forall call_ref ctx r st k kl kh a lo hi,
+Theorem C01_source_between : forall call_ref prim ctx r st k kl kh a lo hi,
   child call_ref ctx r st k a -> child call_ref ctx r st kl lo -> child call_ref ctx r st kh hi ->
   (is_null (meval r st a) = false -> is_null (meval r st lo) = false -> is_null (meval r st hi) = false ->
    rank (meval r st lo) = rank (meval r st a) /\ rank (meval r st a) = rank (meval r st hi)) ->
   let flds := [("operand", PRef k); ("lower", PRef kl); ("upper", PRef kh)]%string in
-  call_method call_ref node_between flds [ctx] = expect flds (meval r st (EBetween a lo hi)).
+  call_method call_ref prim node_between flds [ctx] = expect flds (meval r st (EBetween a lo hi)).
 Proof. exact node_between_src. Qed.
 Print Assumptions C01_source_between.
 
-Theorem C01_source_and : forall call_ref ctx r st ks args,
+Theorem C01_source_and : forall call_ref prim ctx r st ks args,
   children call_ref ctx r st ks args ->
   let flds := [("args", PList (map PRef ks))]%string in
-  call_method call_ref node_and flds [ctx] = Ok (flds, PV (meval r st (EAnd args))).
+  call_method call_ref prim node_and flds [ctx] = Ok (flds, PV (meval r st (EAnd args))).
 Proof. exact node_and_src. Qed.
 Print Assumptions C01_source_and.
 
-Theorem C01_source_or : forall call_ref ctx r st ks args,
+Theorem C01_source_or : forall call_ref prim ctx r st ks args,
   children call_ref ctx r st ks args ->
   let flds := [("args", PList (map PRef ks))]%string in
-  call_method call_ref node_or flds [ctx] = Ok (flds, PV (meval r st (EOr args))).
+  call_method call_ref prim node_or flds [ctx] = Ok (flds, PV (meval r st (EOr args))).
 Proof. exact node_or_src. Qed.
 Print Assumptions C01_source_or.
 
-Theorem C01_source_coalesce : forall call_ref ctx r st ks args,
+Theorem C01_source_coalesce : forall call_ref prim ctx r st ks args,
   children call_ref ctx r st ks args ->
   let flds := [("args", PList (map PRef ks))]%string in
-  call_method call_ref node_coalesce flds [ctx] = Ok (flds, PV (meval r st (ECoalesce args))).
+  call_method call_ref prim node_coalesce flds [ctx] = Ok (flds, PV (meval r st (ECoalesce args))).
 Proof. exact node_coalesce_src. Qed.
 Print Assumptions C01_source_coalesce.
 
 (* the wrapper of a plain scalar function f(x1..xn): NULL if any argument is NULL, else f's value; opaque callable 0
    is the wrapped function (refs table of Gen/SrcEval.v: "closure:func") *)
-Theorem C01_source_function_wrapper : forall call_ref ctx r st f ks args c,
+Theorem C01_source_function_wrapper : forall call_ref prim ctx r st f ks args c,
   children call_ref ctx r st ks args ->
   call_ref 0%nat (map PV (map (meval r st) args)) = PV (apply_func f (map (meval r st) args)) ->
-  call_method call_ref func_wrapper_plain (wrapper_fields ks c) [ctx] =
+  call_method call_ref prim func_wrapper_plain (wrapper_fields ks c) [ctx] =
   expect (wrapper_fields ks c) (meval r st (EFunc f args)).
 Proof. exact func_wrapper_plain_src. Qed.
 Print Assumptions C01_source_function_wrapper.
 
 (* the same wrapper for functions that also receive the row (pass_row) or the table context (pass_context):
    the extra first argument does not weaken NULL-strictness *)
-Theorem C01_source_function_wrapper_row : forall call_ref ctx r st ks args c,
+Theorem C01_source_function_wrapper_row : forall call_ref prim ctx r st ks args c,
   children call_ref ctx r st ks args -> forall g : list pv -> value,
   call_ref 0%nat (ctx :: map PV (map (meval r st) args)) = PV (g (map PV (map (meval r st) args))) ->
-  call_method call_ref func_wrapper_row (wrapper_fields ks c) [ctx] =
+  call_method call_ref prim func_wrapper_row (wrapper_fields ks c) [ctx] =
   expect (wrapper_fields ks c)
     (if existsb is_null (map (meval r st) args) then VNull else g (map PV (map (meval r st) args))).
 Proof. exact func_wrapper_row_src. Qed.
 Print Assumptions C01_source_function_wrapper_row.
 
-Theorem C01_source_function_wrapper_context : forall call_ref ctx r st ks args c,
+Theorem C01_source_function_wrapper_context : forall call_ref prim ctx r st ks args c,
   children call_ref ctx r st ks args -> forall g : list pv -> value,
   call_ref 0%nat (c :: map PV (map (meval r st) args)) = PV (g (map PV (map (meval r st) args))) ->
-  call_method call_ref func_wrapper_context (wrapper_fields ks c) [ctx] =
+  call_method call_ref prim func_wrapper_context (wrapper_fields ks c) [ctx] =
   expect (wrapper_fields ks c)
     (if existsb is_null (map (meval r st) args) then VNull else g (map PV (map (meval r st) args))).
 Proof. exact func_wrapper_context_src. Qed.
@@ -225,7 +225,7 @@ Print Assumptions C01_source_function_wrapper_context.
 
 (* Non-vacuity: the translated EvalOr.__call__ run on three children returning FALSE, NULL, FALSE gives NULL. *)
 Example C01_source_example :
-  call_method (fun k _ => match k with 1%nat => PV VNull | _ => PV (VBool false) end) node_or
+  call_method (fun k _ => match k with 1%nat => PV VNull | _ => PV (VBool false) end) (fun _ _ => Stuck) node_or
     [("args", PList [PRef 0; PRef 1; PRef 2])]%string [PNone]
   = Ok ([("args", PList [PRef 0; PRef 1; PRef 2])]%string, PV VNull).
 Proof. reflexivity. Qed.
